@@ -18,10 +18,12 @@ import "example.com/scion-time/net/ntske"
 //@   loop 0 invariant foundUniqueID && !foundAuthenticator ==> exists(p, 48, pos, p+4+len(pkt.UniqueID.ID) <= pos && p+4+len(pkt.UniqueID.ID) <= len(b) && forall(q, 0, len(pkt.UniqueID.ID), pkt.UniqueID.ID[q] == b[p+4+q]))
 //@   loop 0 invariant foundUniqueID && foundAuthenticator ==> authenticatedID(pkt, b)
 //@   loop 0 invariant foundAuthenticator ==> 48 <= pkt.Auth.pos && pkt.Auth.pos <= len(b)
+//@   loop 0 invariant foundUniqueID ==> len(pkt.UniqueID.ID) >= 32
 //@   loop 0 invariant regionof(pkt.Cookies) == old(regionof(pkt.Cookies)) || fresh(pkt.Cookies)
 //@   loop 0 invariant regionof(pkt.CookiePlaceholders) == old(regionof(pkt.CookiePlaceholders)) || fresh(pkt.CookiePlaceholders)
 //@   loop 0 decreases len(b)-pos
 //@   ensures authid: err == nil ==> 48 <= pkt.Auth.pos && pkt.Auth.pos <= len(b) && authenticatedID(pkt, b)
+//@   ensures uidlen: err == nil ==> len(pkt.UniqueID.ID) >= 32
 
 //@ func (*Packet).FirstCookie
 //@   requires pkt != nil
@@ -79,8 +81,8 @@ import "example.com/scion-time/net/ntske"
 //@   requires u != nil && 0 <= pos && pos <= len(buf)
 //@   modifies *u
 //@   allocates
-//@   ensures kind: (result == nil) == (old(u.extHdr.Type) == 260)
-//@   ensures value: result == nil ==> mathint(len(u.ID)) == floormod(mathint(u.extHdr.Length)-4, 65536) && fresh(u.ID)
+//@   ensures kind: (result == nil) == (old(u.extHdr.Type) == 260 && floormod(mathint(u.extHdr.Length)-4, 65536) >= 32)
+//@   ensures value: result == nil ==> mathint(len(u.ID)) == floormod(mathint(u.extHdr.Length)-4, 65536) && len(u.ID) >= 32 && fresh(u.ID)
 //@   ensures content: result == nil ==> forall(q, 0, len(u.ID), q < len(buf)-pos ==> u.ID[q] == buf[pos+q])
 
 //@ func (*Cookie).unpack
